@@ -414,7 +414,7 @@ theorem c18_sklb_unfixed_witness :
   ⟨faults_of_isFault (by decide), faults_of_isFault (by decide), by decide⟩
 /-- non-vacuity: a complete two-bone file is accepted with its two bones; without its last byte (the
 `FileEnd` tag) it is rejected -/
-example : (match (C18Havok.fromExisting sklbTwoBones).out with | .ok n => n == 2 | _ => false) = true := by
+example : (match (C18Havok.fromExisting sklbTwoBones).out with | .ok (n, _) => n == 2 | _ => false) = true := by
   decide +kernel
 example : (C18Havok.fromExisting sklbTwoBones.dropLast).isOk = false := by decide +kernel
 
